@@ -1,9 +1,61 @@
 // utilsmiri <cases.ndjson> <obs.ndjson> [--from N] [--count M]
-// the replay code is shared with the conformance harness (abra_conform utils ...)
-#[path = "utilsrun_dev.rs"]
+// The replay code is shared with the conformance harness (abra_conform utils ...).
+// Built three ways: plainly, for Miri (cargo miri run), and with --features asan and
+// RUSTFLAGS="-Zsanitizer=address -Zsanitizer-recover=address" (AddressSanitizer that continues after a report;
+// the report callback below lets the replay mark the step and abandon the history instead of dying).
+// (feature "cand": build a candidate copy of the replay code before it is installed into the harness)
+#[cfg_attr(not(feature = "cand"), path = "../../src/utilsrun.rs")]
+#[cfg_attr(feature = "cand", path = "utilsrun_cand.rs")]
 mod utilsrun;
+
+#[cfg(feature = "asan")]
+mod asan {
+    use std::ffi::{CStr, c_char};
+    use std::sync::Mutex;
+    use std::sync::atomic::{AtomicBool, Ordering};
+
+    static SEEN: AtomicBool = AtomicBool::new(false);
+    static REPORT: Mutex<String> = Mutex::new(String::new());
+
+    unsafe extern "C" {
+        fn __asan_set_error_report_callback(cb: extern "C" fn(*const c_char));
+    }
+
+    extern "C" fn on_report(text: *const c_char) {
+        let head: String = unsafe { CStr::from_ptr(text) }
+            .to_string_lossy()
+            .lines()
+            .filter(|l| l.contains("ERROR: AddressSanitizer") || l.starts_with("READ of") || l.starts_with("WRITE of"))
+            .take(2)
+            .collect::<Vec<_>>()
+            .join("\n");
+        if !SEEN.swap(true, Ordering::SeqCst) {
+            if let Ok(mut r) = REPORT.try_lock() {
+                *r = head;
+            }
+        }
+    }
+
+    pub fn install() {
+        unsafe { __asan_set_error_report_callback(on_report) };
+    }
+
+    pub fn probe() -> Option<String> {
+        if SEEN.swap(false, Ordering::SeqCst) {
+            Some(REPORT.lock().map(|r| r.clone()).unwrap_or_default())
+        } else {
+            None
+        }
+    }
+}
 
 fn main() {
     let args: Vec<String> = std::env::args().collect();
-    utilsrun::main(&args[1..]);
+    #[cfg(feature = "asan")]
+    {
+        asan::install();
+        utilsrun::main_with(&args[1..], Some(asan::probe));
+    }
+    #[cfg(not(feature = "asan"))]
+    utilsrun::main_with(&args[1..], None);
 }
